@@ -197,6 +197,20 @@ def build_explicit_from_matrix(prog, name='explnet'):
     return base
 
 
+def compile_circuit_twice(circ, sv, vectorize, **kw):
+    """the same circuit object compiled twice with the default in_place=True (trial run, then the real one): the second
+    compilation is probed"""
+    warnings.filterwarnings('ignore')
+    try:
+        circ.get_run_func('vf0', 1e-3, vectorize=vectorize, verbose=False, clear=True, float_precision='float64', **kw)
+        func, args, anames, svm = circ.get_run_func('vf', 1e-3, vectorize=vectorize, verbose=False, clear=True,
+                                                    float_precision='float64', **kw)
+        return probe(func, args, sv)
+    except Exception as e:
+        import traceback
+        return dict(exc=type(e).__name__, msg=str(e)[:300], tb=traceback.format_exc()[-800:])
+
+
 def compile_circuit(circ, sv, vectorize, **kw):
     warnings.filterwarnings('ignore')
     try:
